@@ -434,6 +434,36 @@ pub(crate) fn l1_local_node_drop_reuse() {
     vcover!("l1_local_node_drop_reuse_end");
 }
 
+// LocalNode::drop, frame: a thread that exits leaves every debt slot of its node as it is. Guards are
+// Send and have no lifetime: a guard that borrowed through one of these slots may be alive on another
+// thread (C10 – guards are valid anywhere and for any lifetime; C01/C02/C04 – its debt is the only
+// thing that protects the value / the writer pays exactly the debts it finds).
+// @harness name=l1_local_node_drop_frame props=C10,C01,C02,C04,C11 tier=quick flavour=nostd fn=LocalNode::drop
+#[cfg_attr(kani, kani::proof)]
+#[cfg_attr(kani, kani::unwind(12))]
+pub(crate) fn l1_local_node_drop_frame() {
+    let l = new_local();
+    let n = Node::get();
+    l.node.set(Some(n));
+    let mut i = 0;
+    while i < 9 {
+        let c = match nd::below(3) {
+            0 => NONE,
+            1 => crate::verif_h::model::addr(0),
+            _ => crate::verif_h::model::addr(1),
+        };
+        poke_slot(n, i, c);
+        i += 1;
+    }
+    let pre = view(n);
+    drop(l);
+    let post = view(n);
+    vassert!(same_slots(&post.slots, &pre.slots), "thread_exit_leaves_debts_of_surviving_guards_in_place");
+    vassert!(helping_h::same_view(&post.helping, &pre.helping), "thread_exit_leaves_helping_state_in_place");
+    vassert!(post.in_use == NODE_COOLDOWN && post.active_writers == pre.active_writers, "local_node_drop_sends_node_to_cooldown");
+    vcover!("l1_local_node_drop_frame_end");
+}
+
 /// `Node::traverse` with its loop unrolled three times by hand (used via kani::stub in harnesses
 /// whose lists have at most three nodes, where CBMC cannot see the bound of the pointer-chasing
 /// loop and would otherwise replicate the heavy closure body up to the global unwinding limit).
